@@ -3,42 +3,105 @@ use super::oracle::*;
 use super::src::Src;
 use crate::{Duration, Epoch, TimeScale, Unit};
 
-// Unit x f64 for all nine units and ALL f64 bit patterns: never panics; infinities and out-of-range
-// products saturate on the right side; NaN does not panic; sign of the result follows the sign of x.
-harness!(c18_unit_mul_f64_total, unwind = 2, |s| {
-    let u = any_unit(s);
+// Unit x f64 / f64 x Unit for ALL f64 bit patterns (one harness per unit, so that the factor is a constant):
+//   never panics (NaN, infinities, subnormals included);
+//   the count of the result is trunc(fl(x * ns_per_unit)) -- the IEEE product, truncated toward zero to a whole
+//   nanosecond -- saturated at the Duration bounds; infinities map to the bounds; sign and zero preserved.
+// Under Kani the two integer constructors are replaced by recording stubs: what is decided here is the float half
+// (thresholds, i64 / i128 cast split, truncation direction, which bound); the integer half -- from_truncated_nanoseconds(k)
+// counts k, from_total_nanoseconds(k) counts clamp(k) -- is decided at full width by the C02 obligations on the real code
+// (128-bit division by a constant is out of reach for SAT, milliseconds for the integer engine).
+// Natively (replay of a counterexample) nothing is stubbed and the same claim is checked end to end.
+#[cfg(kani)]
+static mut REC_KIND: u8 = 0;
+#[cfg(kani)]
+static mut REC_VAL: i128 = 0;
+#[cfg(kani)]
+fn stub_from_truncated(n: i64) -> Duration {
+    unsafe {
+        REC_KIND = 1;
+        REC_VAL = n as i128;
+    }
+    Duration::ZERO
+}
+#[cfg(kani)]
+fn stub_from_total(n: i128) -> Duration {
+    unsafe {
+        REC_KIND = 2;
+        REC_VAL = n;
+    }
+    Duration::ZERO
+}
+
+const DMAX_NS: i128 = 32_768 * (NPC as i128);
+
+#[inline(always)]
+fn unit_mul_body<S: Src>(s: &mut S, u: Unit) {
     let x = s.f64();
-    let d = u * x;
-    let d2 = x * u;
-    v_assert!(s, d.to_parts() == d2.to_parts(), "f64 * Unit is Unit * f64");
-    v_assert!(s, is_canonical(d), "result is canonical");
-    let (c, n) = d.to_parts();
-    if x == f64::INFINITY {
-        v_assert!(s, d.to_parts() == Duration::MAX.to_parts(), "+inf maps to MAX");
-    }
-    if x == f64::NEG_INFINITY {
-        v_assert!(s, d.to_parts() == Duration::MIN.to_parts(), "-inf maps to MIN");
-    }
-    if x > 0.0 {
-        v_assert!(s, c >= 0, "positive counts never give a negative duration");
-    }
-    if x < 0.0 {
-        v_assert!(s, c < 0 || (c == 0 && n == 0), "negative counts never give a positive duration");
-    }
-    if x == 0.0 {
-        v_assert!(s, c == 0 && n == 0, "zero maps to zero");
-    }
-    // beyond the representable range (|x * ns_per_unit| > 32768 centuries): the bound of the same sign
     let f = unit_ns(u) as f64;
-    if x.is_finite() && x * f > 1.04e23 {
-        v_assert!(s, d.to_parts() == Duration::MAX.to_parts(), "too large saturates to MAX");
+    let t = x * f;
+    #[cfg(kani)]
+    {
+        unsafe {
+            REC_KIND = 0;
+        }
+        let d = u * x;
+        let (kind, val) = unsafe { (REC_KIND, REC_VAL) };
+        if kind == 0 {
+            // no constructor reached: the result is a bound, and only for products beyond the representable range
+            let is_max = d.to_parts() == Duration::MAX.to_parts();
+            let is_min = d.to_parts() == Duration::MIN.to_parts();
+            v_assert!(s, (is_max && t >= 1.04e23) || (is_min && t <= -1.04e23), "a bound is returned only beyond the range, on the side of the sign");
+        } else {
+            // Rust's `as` truncates toward zero and saturates (NaN -> 0): the integer handed over must be that cast of the
+            // IEEE product, and the 64-bit constructor may only be used where its cast cannot saturate (|t| < 2^63)
+            if kind == 1 {
+                v_assert!(s, val == (t as i64) as i128, "64-bit path: the count handed over is the IEEE product truncated toward zero");
+                v_assert!(s, t > -9.223372036854775808e18 && t < 9.223372036854775808e18, "64-bit path only where the product fits (no saturating cast)");
+            } else {
+                v_assert!(s, val == t as i128, "128-bit path: the count handed over is the IEEE product truncated toward zero");
+            }
+            v_assert!(s, !(x == f64::INFINITY) && !(x == f64::NEG_INFINITY), "infinities never reach a constructor");
+        }
+        unsafe {
+            REC_KIND = 0;
+        }
+        let d2 = x * u;
+        let (kind2, val2) = unsafe { (REC_KIND, REC_VAL) };
+        v_assert!(s, kind2 == kind && (kind == 0 || val2 == val) && d2.to_parts() == d.to_parts(), "f64 * Unit is Unit * f64");
     }
-    if x.is_finite() && x * f < -1.04e23 {
-        v_assert!(s, d.to_parts() == Duration::MIN.to_parts(), "too negative saturates to MIN");
+    #[cfg(not(kani))]
+    {
+        let d = u * x;
+        let d2 = x * u;
+        let (c, n) = d.to_parts();
+        let count: i128 = (c as i128) * (NPC as i128) + n as i128;
+        let k = t as i128;
+        let want = if k > DMAX_NS { DMAX_NS } else if k < -DMAX_NS { -DMAX_NS } else { k };
+        v_assert!(s, is_canonical(d) && count == want, "Unit x f64 = trunc(fl(x * ns_per_unit)) saturated at the bounds");
+        v_assert!(s, d2.to_parts() == d.to_parts(), "f64 * Unit is Unit * f64");
     }
     v_cover!(x.is_nan(), "NaN reachable");
-    v_cover!(x.is_finite() && x * f > 1.04e23, "finite overflow reachable");
-});
+    v_cover!(x.is_finite() && t < -9.3e18 && t > -1.0e23, "negative product beyond the i64 range reachable");
+}
+
+macro_rules! unit_mul_harness {
+    ($name:ident, $u:expr) => {
+        harness_stubbed!($name, unwind = 2,
+            stubs = [(crate::duration::Duration::from_truncated_nanoseconds, crate::verif::c18::stub_from_truncated),
+                     (crate::duration::Duration::from_total_nanoseconds, crate::verif::c18::stub_from_total)],
+            |s| { unit_mul_body(s, $u) });
+    };
+}
+unit_mul_harness!(c18_unit_mul_f64_ns, Unit::Nanosecond);
+unit_mul_harness!(c18_unit_mul_f64_us, Unit::Microsecond);
+unit_mul_harness!(c18_unit_mul_f64_ms, Unit::Millisecond);
+unit_mul_harness!(c18_unit_mul_f64_s, Unit::Second);
+unit_mul_harness!(c18_unit_mul_f64_min, Unit::Minute);
+unit_mul_harness!(c18_unit_mul_f64_h, Unit::Hour);
+unit_mul_harness!(c18_unit_mul_f64_d, Unit::Day);
+unit_mul_harness!(c18_unit_mul_f64_w, Unit::Week);
+unit_mul_harness!(c18_unit_mul_f64_c, Unit::Century);
 
 // whole nanosecond counts below 2^53 given as f64 nanoseconds are exact
 harness!(c18_nanoseconds_exact, unwind = 2, |s| {
@@ -94,4 +157,41 @@ harness!(c18_duration_mul_f64_integer_factor, unwind = 3, |s| {
         v_assert!(s, r.to_parts() == d.to_parts(), "times one is the identity");
     }
     v_cover!(k < 0, "negative factor reachable");
+});
+
+// Duration::from_<unit>(x) and the f64 TimeUnits helpers are x * Unit::<unit>: same constructor, same integer (recording
+// stubs under Kani as above; natively the resulting parts are compared)
+#[cfg(kani)]
+fn rec_of(f: impl FnOnce() -> Duration) -> (u8, i128, (i16, u64)) {
+    unsafe {
+        REC_KIND = 0;
+        REC_VAL = 0;
+    }
+    let d = f();
+    unsafe { (REC_KIND, REC_VAL, d.to_parts()) }
+}
+#[cfg(not(kani))]
+fn rec_of(f: impl FnOnce() -> Duration) -> (u8, i128, (i16, u64)) {
+    (0, 0, f().to_parts())
+}
+
+harness_stubbed!(c18_from_unit_constructors, unwind = 2,
+    stubs = [(crate::duration::Duration::from_truncated_nanoseconds, crate::verif::c18::stub_from_truncated),
+             (crate::duration::Duration::from_total_nanoseconds, crate::verif::c18::stub_from_total)],
+    |s| {
+    use crate::TimeUnits;
+    let x = s.f64();
+    s.assume(x.is_finite());
+    v_assert!(s, rec_of(|| Duration::from_days(x)) == rec_of(|| x * Unit::Day), "from_days");
+    v_assert!(s, rec_of(|| Duration::from_hours(x)) == rec_of(|| x * Unit::Hour), "from_hours");
+    v_assert!(s, rec_of(|| Duration::from_seconds(x)) == rec_of(|| x * Unit::Second), "from_seconds");
+    v_assert!(s, rec_of(|| Duration::from_milliseconds(x)) == rec_of(|| x * Unit::Millisecond), "from_milliseconds");
+    v_assert!(s, rec_of(|| Duration::from_microseconds(x)) == rec_of(|| x * Unit::Microsecond), "from_microseconds");
+    v_assert!(s, rec_of(|| Duration::from_nanoseconds(x)) == rec_of(|| x * Unit::Nanosecond), "from_nanoseconds");
+    v_assert!(s, rec_of(|| x.centuries()) == rec_of(|| x * Unit::Century) && rec_of(|| x.weeks()) == rec_of(|| x * Unit::Week)
+        && rec_of(|| x.days()) == rec_of(|| x * Unit::Day) && rec_of(|| x.hours()) == rec_of(|| x * Unit::Hour)
+        && rec_of(|| x.minutes()) == rec_of(|| x * Unit::Minute) && rec_of(|| x.seconds()) == rec_of(|| x * Unit::Second)
+        && rec_of(|| x.milliseconds()) == rec_of(|| x * Unit::Millisecond) && rec_of(|| x.microseconds()) == rec_of(|| x * Unit::Microsecond)
+        && rec_of(|| x.nanoseconds()) == rec_of(|| x * Unit::Nanosecond), "f64 TimeUnits helpers");
+    v_cover!(x < 0.0 && x != x.trunc(), "negative non-integer reachable");
 });
